@@ -265,7 +265,7 @@ pub fn decode(t: &mut Tape) -> GenCase {
 pub fn check(ctx: &mut Ctx) {
     ctx.rule = "1-8 generic rules '##SEL' (1/10 written as '~neg.example##SEL'): SEL = '.ident' / '#ident' with ident from the CSS identifier grammar (plain, non-ASCII, backslash-escaped punctuation, hex escapes of 1-6 digits with/without the terminating space, upper/lower-case digits) followed by nothing (simple) or a compound/descendant/list tail (complex, often sharing its key with a simple rule), or a selector starting with neither; class/id query sets = the unescaped names of a subset of the rules + near misses (escaped spelling, prefix, suffix, case, other namespace); exception sets drawn from the rules' selectors. Oracle: identifiers are generated together with their unescaped value; expected lookup result = selectors whose unescaped key is queried, minus exceptions; partition: each selector is served by exactly one of hidden_class_id_selectors(own key) and url_cosmetic_resources(..).hide_selectors. Non-trivial = a rule with an escape, or a complex rule sharing its key with a simple one.".into();
     ctx.assumptions = vec!["NUL, surrogate and out-of-range code points are not generated (CSS maps them to U+FFFD; the library drops such rules)".into()];
-    let n = ctx.tier.pick(80_000, 4_000_000);
+    let n = ctx.tier.pick(2_000_000, 12_000_000);
     drive(ctx, "generic", n, 200, &decode, &check_case);
 }
 
